@@ -271,50 +271,119 @@ class _Desc:
     destination = SPA_ADDR
 
 
+class TClient:
+    """One threaded client (real GeckoUdpSocket + GeckoStructure) against the simulator; several
+    transfers can be made on the same structure."""
+
+    def __init__(self, chooser):
+        lib.reset_library()
+        self.w = stepped.World(chooser)
+        self.peer = SimPeer()
+        self.peer.set_block(SPA_BLOCK)
+        self.w.add(self.peer.sim._socket, "sim", SPA_ADDR)
+        self.client = GeckoUdpSocket()
+        self.w.add(self.client, "client", ("10.0.0.2", 50001))
+        self.client.add_receive_handler(GeckoPacketProtocolHandler(socket=self.client))
+        self.st = GeckoStructure(lambda *a: None)
+        self.installs = []
+        orig = self.st.replace_status_block_segment
+
+        def monitor(offset, segment):
+            self.installs.append((self.w.clock(), offset, bytes(segment)))
+            return orig(offset, segment)
+
+        self.st.replace_status_block_segment = monitor
+
+    def transfer(self, start, length, N, fates, horizon=None):
+        w, client, st = self.w, self.client, self.st
+        st.set_status_block(CLIENT_BLOCK)
+        del self.installs[:]
+        mark = len(w.engines[1].mock.sent)
+        nlog = len(lib.LOG.records)
+        w.net.fates = fates
+        parms = (SPA_ADDR[0], SPA_ADDR[1], SPA_ID, CLIENT_ID)
+        w.net.clock.t = w.now()
+        with stepped.patched_clock(w.clock):
+            req = GeckoStatusBlockProtocolHandler.request(
+                client.get_and_increment_sequence_counter(False), start, length, parms=parms
+            )
+            req._retry_count = N
+            st.retry_request(client, req, parms)
+        T = req._timeout_in_seconds
+        hz = horizon or ((N + 1) * (T + nseg(length) * 0.05 + 1.0) + 10.0)
+        t0 = w.now()
+        w.run_until(t0 + hz, pred=lambda: req not in client._receive_handlers)
+        done = req not in client._receive_handlers
+        n_at = len(self.installs)
+        w.run_until(w.now() + 1.0)
+        statu = 0
+        for (t, data, dest) in w.engines[1].mock.sent[mark:]:
+            p = unframe(data)
+            if p and p[2].startswith(b"STATU"):
+                statu += 1
+        result = (len(self.installs) > 0) if done else "hung"
+        return {"result": result, "installs": list(self.installs), "statu": statu, "block": st.status_block,
+                "late_installs": len(self.installs) - n_at if done else 0,
+                "errors": [r for r in lib.LOG.records[nlog:] if "Too many retries" not in str(r)]}
+
+
 def _threaded_transfer(chooser, start, length, N, fates, horizon=None):
-    lib.reset_library()
-    w = stepped.World(chooser)
-    peer = SimPeer()
-    peer.set_block(SPA_BLOCK)
-    w.add(peer.sim._socket, "sim", SPA_ADDR)
-    client = GeckoUdpSocket()
-    caddr = ("10.0.0.2", 50001)
-    w.add(client, "client", caddr)
-    client.add_receive_handler(GeckoPacketProtocolHandler(socket=client))
-    st = GeckoStructure(lambda *a: None)
-    st.set_status_block(CLIENT_BLOCK)
-    installs = []
-    orig = st.replace_status_block_segment
+    return TClient(chooser).transfer(start, length, N, fates, horizon)
 
-    def monitor(offset, segment):
-        installs.append((w.clock(), offset, bytes(segment)))
-        return orig(offset, segment)
 
-    st.replace_status_block_segment = monitor
-    w.net.fates = fates
-    parms = (SPA_ADDR[0], SPA_ADDR[1], SPA_ID, CLIENT_ID)
-    with stepped.patched_clock(w.clock):
-        req = GeckoStatusBlockProtocolHandler.request(
-            client.get_and_increment_sequence_counter(False), start, length, parms=parms
-        )
-        req._retry_count = N
-        st.retry_request(client, req, parms)
-    T = req._timeout_in_seconds
-    hz = horizon or ((N + 1) * (T + nseg(length) * 0.05 + 1.0) + 10.0)
-    t0 = w.now()
-    w.run_until(t0 + hz, pred=lambda: req not in client._receive_handlers)
-    done = req not in client._receive_handlers
-    n_at = len(installs)
-    w.run_until(w.now() + 1.0)
-    statu = 0
-    for (t, data, dest) in w.engines[1].mock.sent:
+def _adv_policy(name, i):
+    def fates(src, dst, data):
         p = unframe(data)
-        if p and p[2].startswith(b"STATU"):
-            statu += 1
-    result = (len(installs) > 0) if done else "hung"
-    return {"result": result, "installs": installs, "statu": statu, "block": st.status_block,
-            "late_installs": len(installs) - n_at if done else 0,
-            "errors": [r for r in lib.LOG.records if "Too many retries" not in str(r)]}
+        if p is None:
+            return None
+        c = p[2]
+        if c.startswith(b"STATU"):
+            return ["drop"] if name == "never-answer" else ["deliver"]
+        if c.startswith(b"STATV"):
+            idx = c[5]
+            if name == "drop-from" and idx >= i:
+                return ["drop"]
+            if name == "drop" and idx == i:
+                return ["drop"]
+            if name == "dup" and idx == i:
+                return ["dup"]
+            if name == "swap" and idx == i:
+                return ["delay:0.03"]
+            if name == "stale" and idx == i:
+                return ["delay:4.3"]
+        return ["deliver"]
+
+    return fates
+
+
+def _sequence_job(job):
+    """Transfer A under a stationary adversary (so it is abandoned or retried), then transfer B
+    fault-free on the SAME structure / connection: B must install exactly the spa's bytes."""
+    kind, (sa, la, Ra, adv), (sb, lb) = job
+    if kind == "async":
+        rig = ARig()
+        rig.net.fates = _adv_policy(*adv)
+        oa = rig.transfer(sa, la, Ra, settle=6.0)
+        rig.net.fates = None
+        ob = rig.transfer(sb, lb, 1, settle=1.0)
+        rig.close()
+    else:
+        tc = TClient(Chooser())
+        oa = tc.transfer(sa, la, Ra - 1, _adv_policy(*adv))
+        ob = tc.transfer(sb, lb, 0, None)
+    out = []
+    wa = _judge(oa, sa, la, Ra, False, max_requests=Ra)
+    if wa:
+        out.append((f"C01|{kind}|{wa[0]}|adv={adv[0]}|len={la}|R={Ra}",
+                    f"{kind} transfer start={sa} length={la} R={Ra} adversary={adv}: {wa[1]}",
+                    {"mode": "sequence", "job": [kind, [sa, la, Ra, list(adv)], [sb, lb]]}))
+    wb = _judge(ob, sb, lb, 1, True, max_requests=1)
+    if wb:
+        out.append((f"C01|{kind}|sequence|{wb[0]}",
+                    f"{kind}: after transfer A (start={sa} length={la} R={Ra} adversary={adv}, result {oa['result']}) "
+                    f"the fault-free transfer B start={sb} length={lb} on the same structure: {wb[1]}",
+                    {"mode": "sequence", "job": [kind, [sa, la, Ra, list(adv)], [sb, lb]]}))
+    return out, (oa["result"], ob["result"])
 
 
 # ------------------------------------------------------------------------------------------
@@ -366,27 +435,8 @@ def _fault_job(job):
 
 def _adversary_job(job):
     kind, start, length, R, adv = job
-    nsegs = nseg(length)
     name, i = adv
-
-    def fates(src, dst, data):
-        p = unframe(data)
-        if p is None:
-            return None
-        c = p[2]
-        if c.startswith(b"STATU"):
-            return ["drop"] if name == "never-answer" else ["deliver"]
-        if c.startswith(b"STATV"):
-            idx = c[5]
-            if name == "drop" and idx == i:
-                return ["drop"]
-            if name == "dup" and idx == i:
-                return ["dup"]
-            if name == "swap" and idx == i:
-                return ["delay:0.03"]
-            if name == "stale" and idx == i:
-                return ["delay:4.3"]
-        return ["deliver"]
+    fates = _adv_policy(name, i)
 
     if kind == "async":
         rig = ARig()
@@ -532,6 +582,27 @@ def run(ctx):
     ctx.set("adversary_runs", len(jobs))
     ctx.set("adversary_outcomes", {k: sorted(v) for k, v in outcomes.items()})
 
+    # (c) non-initial states: a second transfer on a structure whose previous transfer was abandoned,
+    #     retried or completed under faults
+    As = []
+    for la in (100, 200):
+        k = nseg(la)
+        for R in (1, 2):
+            for adv in [("drop-from", 1), ("drop-from", k - 1), ("drop", 0), ("drop", k - 1), ("swap", 0), ("swap", k - 2),
+                        ("dup", k - 1), ("stale", 1), ("never-answer", 0)]:
+                As.append((300, la, R, adv))
+    Bs = [(300, 200), (0, 120), (320, 39), (600, 424)]
+    sjobs = [(kind, a, b) for kind in ("async", "threaded") for a in As for b in Bs]
+    souts = set()
+    for (viol, res), job in zip(core.pmap(ctx, _sequence_job, sjobs), sjobs):
+        ctx.merge_violations(viol)
+        souts.add((job[0], repr(res)))
+        nontrivial.add(("seq",) + tuple(map(str, job)))
+    evals += 2 * len(sjobs)
+    ctx.set("sequence_runs", len(sjobs))
+    ctx.set("sequence_outcomes", sorted(map(str, souts)))
+    ctx.log(f"two-transfer sequences: {len(sjobs)} runs")
+
     ctx.set("evaluations", evals)
     ctx.set("distinct_nontrivial", len(nontrivial))
     ctx.set("rule", "cases = (start,length) pairs at chain level and on the client path, fate vectors "
@@ -570,6 +641,10 @@ def replay(ctx, data):
     elif mode == "fault":
         res = _fault_job(((data["kind"], data["start"], data["length"], data["R"]), [tuple(p) for p in data["prefix"]]))
         ctx.merge_violations(res["violations"])
+    elif mode == "sequence":
+        j = data["job"]
+        v, _ = _sequence_job((j[0], (j[1][0], j[1][1], j[1][2], tuple(j[1][3])), tuple(j[2])))
+        ctx.merge_violations(v)
     elif mode == "adversary":
         v, _ = _adversary_job((data["kind"], data["start"], data["length"], data["R"], tuple(data["adv"])))
         ctx.merge_violations(v)
